@@ -2,6 +2,7 @@ package rules
 
 import (
 	"fmt"
+	"go/types"
 	"strings"
 
 	"golang.org/x/tools/go/ssa"
@@ -156,6 +157,15 @@ func runC18(c *Ctx) {
 		}
 		if len(f.Blocks) == 0 || len(f.TypeArgs()) == 0 {
 			continue // the uninstantiated generic body is not executable code
+		}
+		generic := false
+		for _, ta := range f.TypeArgs() {
+			if _, ok := ta.(*types.TypeParam); ok {
+				generic = true
+			}
+		}
+		if generic {
+			continue
 		}
 		ninst++
 		fn := core.FuncName(f)
